@@ -686,10 +686,14 @@ func c20Levels(tier string) []core.Level {
 			}
 		}},
 		{Name: "size: an unknown tag inside an if, and a for / if / else construct, after n = 0..1500 simple prints (three token alignments, on one line and one per line)", Gen: func(emit func(core.Case)) {
+			top := 1500
+			if thorough(tier) {
+				top = 6000
+			}
 			for what := 0; what < 2; what++ {
 				for lead := 0; lead < 3; lead++ {
 					for nl := 0; nl < 2; nl++ {
-						for n := 0; n <= 1500; n++ {
+						for n := 0; n <= top; n++ {
 							if (what == 1 || nl == 1) && n%7 != 0 && n < 600 {
 								continue
 							}
